@@ -22,7 +22,7 @@ CMP = ("x", "fun", "jac", "nfev", "njev", "nit", "message", "status", "success",
 def floors(tier):
     return {"pairs_compared": 300, "evaluation_points_compared": 5000, "callback_states_compared": 1500, "scaler_argument_checks": 300,
             "target_runs": 100, "target_stops": 30, "packaged_scaler_pairs": 20, "finite_difference_pairs": 40,
-            "pairs_with_identity_update_function": 40, "pairs_from_a_start_beyond_unit_step_resolution": 20, "pairs_with_infinite_trial_values": 8, "__nontrivial__": 100}
+            "pairs_with_identity_update_function": 40, "pairs_with_reused_gradient_buffer": 40, "pairs_from_a_start_beyond_unit_step_resolution": 20, "pairs_with_infinite_trial_values": 8, "__nontrivial__": 100}
 
 
 def cases(tier, seed):
@@ -56,6 +56,8 @@ def cases(tier, seed):
             ps = gen.rand_spec(rng, ("log_barrier", "qp_inf_region", "qp_inf_region"), nmax=6, boxes=("none", "none", "upper"), starts=("interior",))
             cfg["jac"] = "callable"
             s = float(np.exp(rng.uniform(np.log(1e-3), np.log(0.3))))
+        if cfg["jac"] == "callable" and i % 5 == 2:
+            cfg["reuse_grad_buffer"] = True  # the user's gradient fills and returns one preallocated array (in both runs of the pair)
         yield {"problem": ps, "cfg": cfg, "s": s, "target_frac": float(rng.uniform(0.1, 0.9)), "ufd_identity": bool(i % 5 == 0)}
 
 
@@ -195,6 +197,11 @@ def run(spec):
         if fend < T < f0:
             At = probes.run_min(P, dict(cfg, scaler=scaler_cfg, ftarget=float(T)))
             check_target(out, At, s, float(T), f"{name} s={s!r}", tagsS)
+    if cfg.get("reuse_grad_buffer"):
+        out.count("pairs_with_reused_gradient_buffer")
+    # (a scaler introduced on a restart leg is NOT compared with an explicitly scaled continuation: the restored history holds the
+    #  unscaled gradients of the first leg while the current gradient is scaled, so the two are different runs already on the unchanged
+    #  tree; the statement speaks of runs, not of continuations. What such a leg reports is judged by C04.)
     out.nontrivial = bool(ok and nit >= 3 and not (0.5 <= s <= 2.0))
     out.key = f"{P.spec['family']}/{P.n}/{P.spec['seed']}/{cfg['jac']}/{cfg['maxls']}/{spec['s']}"
     out.sample = dict(spec=spec, s=s, nit=nit, evaluations=len(A.evals))
